@@ -229,6 +229,31 @@ func runC03(c *fw.Ctx) {
 			}
 		})
 	}
+	// the same tensor object as both operands (and three times in a Concat)
+	for _, shape := range Shapes(0, c.Pick(3, 4), 3) {
+		for _, op := range []string{"add", "sub", "mul", "div", "elmax", "elmin", "eq", "ne", "ge", "lt", "dot", "matmul", "concat", "patch"} {
+			rank := len(shape)
+			if (op == "dot" || op == "concat" || op == "patch") && rank < 1 {
+				continue
+			}
+			if op == "matmul" && (rank < 2 || shape[rank-1] != shape[rank-2]) {
+				continue
+			}
+			shape, op := shape, op
+			c.Case(func(k *fw.K) {
+				x := Shuffled(k.Rng, Unique(k.Rng, shape, 0.2, 2))
+				in := ref.Instr{Op: op, In: []int{0, 0}}
+				if op == "concat" {
+					in = ref.Instr{Op: op, In: []int{0, 0, 0}, Dim: k.Rng.Intn(len(shape))}
+				}
+				p := ref.Prog{{Op: "leaf", Shape: shape, Data: x.Data, Tracked: k.Rng.Intn(2) == 0}, in, {Op: "scale", In: []int{0}, F: 3}}
+				k.Case = c01case{Family: "one tensor object passed as every operand", Prog: p}
+				k.Key("same-object/%s/%s", op, shapeKey(shape))
+				k.Count("same_object_cases", 1)
+				runChain(k, p)
+			})
+		}
+	}
 	// tensors that took part in REJECTED calls are used again
 	for i := 0; i < c.Pick(2000, 20000); i++ {
 		c.Case(func(k *fw.K) { rejectThenReuse(k, RandShape(k.Rng, 0, 4, 3)) })
